@@ -64,7 +64,8 @@ CONFIG = {
         "unchanged from the previous block, no keys / assets / applications / leases / rekeying; expired and absent lists empty, no StateProofTracking",
         "RewardsState and GenesisHash are opaque tokens (both modes call NextRewardsState / GenesisHash() on the same arguments; C25); PaysetCommit is "
         "modelled as the identity on (txid, ApplyData) lists (binding of the Merkle commitment: C37 / collision resistance)",
-        "per group the state-independent checks that are the same code in both modes (Txn.WellFormed, group-id consistency / completeness, "
+        "per group the state-independent checks that are the same code in both modes (Txn.WellFormed; per member the group-id checks made inside "
+        "TransactionGroup's loop -- after the member's space check, before the next member -- and per group the completeness check after the loop; "
         "SummarizeFees + CheckGroupFees) and per transaction Alive's genesis checks and GetEncodedLength are inputs computed by the real functions",
         "a failing group -- ErrNoSpace included -- leaves the evaluator unchanged (C19; the model drops it by construction, so a counter that keeps "
         "a trace of a dropped group is caught by the harness: the generated block is then rejected by the validator or fails the header-against-payset "
